@@ -40,6 +40,10 @@ class Call:
     def after(self, w, s, res):
         return []
 
+    def finally_(self, w, s, res):
+        """runs after the post-state was abstracted (may touch the store)"""
+        return []
+
     def __repr__(self):
         return self.label
 
@@ -57,12 +61,13 @@ class StoreObj(Call):
     """store_object(pid, data[, additional_algorithm, checksum, checksum_algorithm, size])"""
 
     def __init__(self, i, k, kind="path", add=None, checksum=None, calgo=None, size=None, invalid=False,
-                 offset=0, tagname=""):
+                 offset=0, tagname="", add_canon=None, calgo_canon=None, roles=None):
+        self.add_canon, self.calgo_canon = add_canon, calgo_canon
         self.i, self.k, self.kind = i, k, kind
         self.add, self.checksum, self.calgo, self.size, self.invalid = add, checksum, calgo, size, invalid
         self.offset = offset
         self.label = "store_object(pid%d, c%d%s%s)" % (i, k, "" if kind == "path" else "," + kind, tagname)
-        self.roles = "store_object(pid, content%s)" % tagname
+        self.roles = roles or "store_object(pid, content%s)" % tagname
 
     def data(self, w):
         p = w.src(self.k)
@@ -110,8 +115,16 @@ class StoreObj(Call):
             if val.obj_size != len(c):
                 bad.append(("returned-size-wrong", val.obj_size))
             for a, h in val.hex_digests.items():
-                if h != hashlib.new(a, c).hexdigest():
-                    bad.append(("returned-digest-wrong", a))
+                try:
+                    if h != hashlib.new(a, c).hexdigest():
+                        bad.append(("returned-digest-wrong", a))
+                except ValueError:
+                    bad.append(("returned-digest-key-not-an-algorithm", a))
+            want = set(FIVE) | ({self.add_canon} if self.add_canon else set()) | (
+                {self.calgo_canon} if self.calgo_canon else set())
+            if (self.add is None or self.add_canon) and (self.calgo is None or self.calgo_canon):
+                if set(val.hex_digests) != want:
+                    bad.append(("returned-digest-key-set-wrong", sorted(val.hex_digests)))
         st = getattr(self, "stream", None)
         if st is not None and res in ("ok", "exists", "mismatch"):
             if st.closed:
@@ -466,6 +479,8 @@ def run_step(ps, w, menu, extra_assume=None):
         bad.append(("instance-state", p[0], p[1:]))
     for p in call.check_value(w, ps, val, res):
         bad.append(("returned-value", p[0], p[1:]))
+    for p in call.finally_(w, s, res):
+        bad.append(("history:" + p[0], p[1:]))
     trace = list(w.F.trace[nops0:]) if w.F is not None else []
     if (call.rejected or call.readonly) and w.F is not None:
         mut = [t for t in trace if t[0] in symfs.MUTATING]
